@@ -192,6 +192,8 @@ U2Inplace(z) ==
   \cup {[if |-> e] : e \in ItemSubs} \cup {[if |-> [prefixItems |-> <<IntS>>, minItems |-> 2], then |-> f, else |-> g] : f, g \in {[prefixItems |-> <<TrueS, TrueS>>], TrueS}}
   \cup {[defs |-> [x |-> e], ref |-> LocalRef(PtrDefs("x"))] : e \in ItemSubs}
   \cup {[prefixItems |-> <<TrueS>>], [items |-> IntS], [contains |-> IntS], [contains |-> StrS, minContains |-> 0],
+        [contains |-> TrueS], [contains |-> EmptyFcn], [contains |-> [title |-> "t"]], [allOf |-> <<[contains |-> EmptyFcn]>>],
+        [contains |-> TrueS, maxContains |-> 1],
         [prefixItems |-> <<[prefixItems |-> <<TrueS, TrueS>>]>>]}
 \* evaluations at CHILD instance locations (inside a nested array) must never count for the parent
 ChildSubs == {[type |-> "array", items |-> TrueS], [prefixItems |-> <<TrueS, TrueS>>], [unevaluatedItems |-> TrueS],
@@ -246,6 +248,11 @@ G3Docs(z) ==
   \cup {[definitions |-> [x |-> d @@ [id |-> IdFrag("foo")]], items |-> [ref |-> LocalRef(FragName("foo"))]] : d \in DefPool \ {FalseS}}
   \cup {[definitions |-> [x |-> [ref |-> LocalRef(PtrDefn("y")), minimum |-> R_128], y |-> d], ref |-> LocalRef(PtrDefn("x"))] : d \in DefPool}
   \cup {[definitions |-> [node |-> ListNode(LocalRef(PtrDefn("node")))], ref |-> LocalRef(PtrDefn("node"))]}
+  \* a fragment-only $id (an anchor, not a resource) with references BELOW it
+  \cup {[definitions |-> [node |-> ListNode(LocalRef(FragName("node"))) @@ [id |-> IdFrag("node")]], ref |-> LocalRef(FragName("node"))],
+        [definitions |-> [x |-> [id |-> IdFrag("foo"), items |-> [ref |-> LocalRef(PtrDefn("y"))]], y |-> IntS], ref |-> LocalRef(FragName("foo"))],
+        [definitions |-> [x |-> [id |-> IdFrag("foo"), properties |-> [a |-> [ref |-> LocalRef(FragName("foo"))], v |-> IntS]]],
+         properties |-> [a |-> [ref |-> LocalRef(FragName("foo"))]]]}
 G3Vals == F5Vals \cup {Obj([a |-> x]) : x \in {Num(R_1), Str("a")}} \cup {Obj([zz |-> Num(R_1)])}
 
 
@@ -302,6 +309,19 @@ DyCases(z) ==
            hk \in IF K >= 3 THEN {"ref", "inner"} ELSE {"ref", "dref", "allOf", "inner"}, fin \in DyFinals}
 DyVals == {Num(Mark[i]) : i \in 1..(K + 1)} \cup {Str("a")}
 
+\* ------------------------------------------------------------ DUP: two resources with one URI (C14 only)
+\* Outside every other property's quantifier (which subschema such a reference designates is not
+\* specified), but whatever the package does must not depend on map iteration order: no prediction
+\* ("?"), the replay only demands the same verdicts from every Resolve and in every process.
+DupId(u) == [id |-> IdOf(u)]
+DupDocs(z) ==
+  {[defs |-> [p |-> DupId(RelRef(<<"d.json">>)) @@ x, q |-> DupId(RelRef(<<"d.json">>)) @@ y], ref |-> Ref(RelRef(<<"d.json">>), FragNone)] :
+      x \in {IntS, StrS}, y \in {[type |-> "null"], [minimum |-> R_2]}}
+  \cup {[defs |-> [p |-> DupId(RelRef(<<"d.json">>)) @@ [type |-> "integer", defs |-> [q |-> DupId(RelRef(<<"d.json">>)) @@ StrS]]],
+         properties |-> [a |-> [ref |-> Ref(RelRef(<<"d.json">>), FragNone)]]]}
+  \cup {[defs |-> [p |-> DupId(RelRef(<<"root.json">>)) @@ StrS], type |-> "integer", properties |-> [a |-> [ref |-> Ref(RelRef(<<"root.json">>), FragNone)]]]}
+DupCases(z) == {[docs |-> <<[uri |-> DyRootURI, s |-> d]>>] : d \in DupDocs(0)}
+
 \* ------------------------------------------------------------ selection
 Stamp(s) == IF Dr = "d7" THEN s @@ [schema |-> D7http] ELSE s
 WithSchema(ss) == {Single(Stamp(s)) : s \in ss}
@@ -355,6 +375,7 @@ Cases ==
     [] Family = "G4" -> G4Docs(0)
     [] Family = "G5" -> {u \in G5Docs(0) : ResolveOK(u, "d7")}
     [] Family = "DY" -> DyCases(0)
+    [] Family = "DUP" -> DupCases(0)
 InstSet ==
   CASE Family = "F1" -> ScalarVals
     [] Family = "F2" -> ArrVals
@@ -369,6 +390,7 @@ InstSet ==
     [] Family = "G4" -> {Null, Num(R_1), Num(R_3), Num(R_h), Str("a"), EmptyObj}
     [] Family = "G5" -> G3Vals \cup ArrVals \cup {Obj([a |-> Num(R_1), b |-> Num(R_1)])}
     [] Family = "DY" -> DyVals
+    [] Family = "DUP" -> {Null, Num(R_1), Num(R_3), Str("a"), Obj([a |-> Num(R_1)]), Obj([a |-> Str("a")]), Obj([a |-> Null])}
 
 Insts == SetToSeq(InstSet)
 
@@ -397,12 +419,12 @@ Spec == Init /\ [][Next]_vars
 \* Every universe is inside the property's quantifier: all references designate.
 \* (family DY deliberately contains references that designate nothing: there the
 \* prediction is that Resolve fails)
-Wellformed == (phase = "new" /\ Family # "DY") => ROK(cs)
+Wellformed == (phase = "new" /\ Family \notin {"DY", "DUP"}) => ROK(cs)
 
 \* L1 (code-shaped) refines L0 (specification-shaped): same verdict, and on
 \* success the compressed annotations denote the specification's sets.
 Refines ==
-  phase = "done" =>
+  (phase = "done" /\ Family # "DUP") =>
     \A i \in DOMAIN res : res[i] # Skip =>
       LET c == CvTop(cs, Insts[i])
           e == res[i]
@@ -411,7 +433,7 @@ Refines ==
               /\ DenItems(c.anns, Insts[i]) = e.items
               /\ DenProps(c.anns, Insts[i]) = e.props
 
-Verdicts == [i \in DOMAIN res |-> IF res[i] = Skip THEN "x" ELSE IF res[i].ok THEN "T" ELSE "F"]
+Verdicts == [i \in DOMAIN res |-> IF Family = "DUP" THEN "?" ELSE IF res[i] = Skip THEN "x" ELSE IF res[i].ok THEN "T" ELSE "F"]
 Emit == phase = "done" => PrintT(<<"CASE", ToJson([u |-> cs, exp |-> Verdicts, dr |-> DrOf(cs), res |-> IF ROK(cs) THEN "ok" ELSE "err"])>>)
 
 ASSUME PrintT(<<"INSTS", ToJson(Insts)>>)
